@@ -125,3 +125,33 @@ Proof.
     split; [vm_compute; reflexivity|]. eexists. split; [vm_compute; reflexivity|]. reflexivity.
   - discriminate.
 Qed.
+
+(* ... and WHAT it does to the marks, token by token: token i of the result is token i of the starting document re-marked,
+   in plan order, by every applied step whose range contains i - each by that step's own rule (C13_mark_step_pointwise:
+   Mark.add_to_set on atoms whose enclosing node type allows the mark / remove_from_set on inline tokens), always read in
+   the context token i has in the STARTING document.  Stated for any run of mark steps over valid documents, so also for
+   remove_mark and for hand-built histories of mark steps. *)
+Theorem C13_mark_steps_run_pointwise : forall s sts doc d',
+  Forall (IsMarkStep) sts -> RunV s doc sts d' ->
+  node_ty s d' = node_ty s doc /\
+  length (DT s d') = length (DT s doc) /\
+  forall i t0, nth_error (DT s doc) i = Some t0 ->
+    nth_error (DT s d') i =
+    Some (fold_left (apply_tok s (snd (Proofs.MarkMerge.ctxT (node_ty s doc) (DT s doc) i)) i) sts t0).
+Proof.
+  intros s sts doc d' Hall Hrun. destruct (mark_run_pointwise s sts doc d' Hall Hrun) as (H1 & H2 & _ & H4). auto.
+Qed.
+Print Assumptions C13_mark_steps_run_pointwise.
+
+Corollary C13_add_mark_run_pointwise : forall s doc from to mk pre post d',
+  plan_add_mark s doc from to mk = Ok (pre ++ post) -> RunV s doc pre d' ->
+  forall i t0, nth_error (DT s doc) i = Some t0 ->
+    nth_error (DT s d') i =
+    Some (fold_left (apply_tok s (snd (Proofs.MarkMerge.ctxT (node_ty s doc) (DT s doc) i)) i) pre t0).
+Proof.
+  intros s doc from to mk pre post d' Hp Hr.
+  pose proof (plan_add_mark_in s _ _ _ _ _ Hp) as H. apply Forall_app in H. destruct H as (H & _).
+  assert (Hm : Forall IsMarkStep pre) by (eapply Forall_impl; [|exact H]; intros st (f & t & E & _); exists f, t; exact E).
+  exact (proj2 (proj2 (C13_mark_steps_run_pointwise s pre doc d' Hm Hr))).
+Qed.
+Print Assumptions C13_add_mark_run_pointwise.
